@@ -78,6 +78,7 @@ def run(ctx, rep):
     points_end(prog, rep)
     # triangle: canonical edges in contains() and in the scanline intersection (shared with C19)
     c19.triangle_edges(prog, rep)
+    c19.edge_rasteriser(prog, rep)
     rectangle(prog, rep)
 
 
